@@ -12,6 +12,15 @@ func verifBeforeSend(_ *IterVisitor, v Node) {
 	}
 }
 
+// VerifAfterSend, when set, is called right after the send has gone through.
+var VerifAfterSend func(v Node)
+
+func verifAfterSend(_ *IterVisitor, v Node) {
+	if f := VerifAfterSend; f != nil {
+		f(v)
+	}
+}
+
 // VerifChanLen is the number of nodes sent and not yet received.
 func (s *IterVisitor) VerifChanLen() int { return len(s.nodeC) }
 
